@@ -299,6 +299,14 @@ def link_scenarios():
     out.append(Scenario("unlink1-vs-link2", linked, [[["unlink 1 3", "link 1 4 3"]], [["link 2 3 4"]], [["unlink 2 1"]]], {"full_cap": 20000}, tags={"link"}))
     # remove_free_dart_transac has the precondition "the dart is free" (it performs no check): nobody else links dart 4
     out.append(Scenario("rmtx-vs-isun", free, [[["rmtx 4"]], [["isun 4", "link 1 1 2"], ["isun 4"]]], {"full_cap": 50000}, tags={"link"}))
+    # the removal flag is a transactional variable like any other: two transactions releasing the SAME dart (exactly one may be
+    # told "was in use"), and a block that reads the flag and then writes, against a release + vertex removal of that dart
+    # (seeded changes C07-10, C07-11: the flag read / tested outside the transaction log)
+    out.append(Scenario("rmtx-vs-rmtx", free, [[["rmtx 4"]], [["rmtx 4"]]], {"full_cap": 50000}, tags={"link"}))
+    out.append(Scenario("rmtx-vs-rmtx-3", free, [[["rmtx 4"], ["rmtx 3"]], [["rmtx 3"], ["rmtx 4"]], [["rmtx 4", "rmtx 3"]]], {"full_cap": 50000}, tags={"link"}))
+    out.append(Scenario("isun-guard-vs-release", free, [[["isun 4", "wv 4 9 9"]], [["rmtx 4", "xv 4"]]], {"full_cap": 50000}, tags={"link"}))
+    out.append(Scenario("isun-guard-vs-release-2", free, [[["isun 4", "wv 4 9 9"], ["isun 3", "wv 3 8 8"]], [["rmtx 3", "xv 3"], ["rmtx 4", "xv 4"]]],
+                        {"full_cap": 50000}, tags={"link"}))
     return out
 
 
